@@ -28,6 +28,22 @@ def run(rep, tier, seed, pa):
     # vertices, so that a fallback that is not an integer program shows as a result that is not a partition (not only as a solver name)
     frac = ac.random_cases(rng, 120 if tier == "quick" else 1200, tier, unlabelled_share=0.0, kmax={3: 5, 4: 4}, kinds=["comb"], ns=[3, 3, 4],
                            patterns=["perturbed", "random", "random", "nested", "samelabel"])
+    # loosely matched units (gadgets whose best grouping costs between 2 and n delta_empty per tuple): optimal tuples a back-end-specific
+    # shortcut on the candidate list would lose; both back-ends, disorders compared
+    loose = ac.random_cases(rng, 40 if tier == "quick" else 400, tier, unlabelled_share=0.0, kmax={3: 3, 4: 3}, kinds=["pos", "pos", "comb"], ns=[3, 3, 4],
+                            patterns=["farapart", "farapart", "longshort"])
+    la = ac.align_many(pa, [(case, "cbc", False) for case in loose])
+    lb = ac.align_many(pa, [(case, "glpk-noimport", False) for case in loose])
+    for case, a, b in zip(loose, la, lb):
+        rep.count("group=loose")
+        ok = a["error"] is None and b["error"] is None
+        rep.case(nontrivial_key=(repr(case["units"]), case["spec"], "loose") if ok else None)
+        if ok and not close(Fraction(float(a["disorder"])), Fraction(float(b["disorder"])), TAU2):
+            rep.violation("backend-disorder", {"units": case["units"], "dissim": case["spec"], "soft": False, "disorders": [float(a["disorder"]), float(b["disorder"])]},
+                          "disorders differ across back-ends: CBC %r, fallback %r" % (float(a["disorder"]), float(b["disorder"])))
+        elif not ok:
+            rep.violation("does-not-return", {"units": case["units"], "dissim": case["spec"], "errors": [a["error"], b["error"]]},
+                          "an alignment did not return: %r / %r" % (a["error"], b["error"]))
     items = list(zip(frac, ac.align_many(pa, [(case, "glpk-noimport", False) for case in frac])))
     for case, res in items:
         rep.count("group=fallback-3plus")
